@@ -162,9 +162,10 @@ def eop(op):
 
 
 class Eval:
-    def __init__(self, env, val):
+    def __init__(self, env, val, diagonal=False):
         self.env, self.val = env, val     # val: atoms {'g':bool, 'si':bool, 'sj':bool}
         self.used_atoms = set()
+        self.diagonal = diagonal          # evaluate the generic entry on the diagonal (i == j)
 
     def atom(self, name):
         self.used_atoms.add(name)
@@ -362,6 +363,9 @@ class Eval:
             return lift(band if d.endswith("and") else bor, self.ev(args[0]), self.ev(args[1]))
         if d == "numpy.logical_not" and len(args) == 1:
             return lift(bnot, self.ev(args[0]))
+        if d in ("numpy.eye", "numpy.identity"):
+            c = E(ONE) if self.diagonal else E(Z)
+            return M({"*": (c, c)})
         if d in ("numpy.zeros_like", "numpy.ones_like") and args:
             x = self.ev(args[0])
             if isinstance(x, M):
